@@ -226,6 +226,22 @@ FIXED_TAIL = '''
   Assets:Broker:ACME  3 ACME {0.00 USD, "gift"}
     lotTag: "Free"
   Income:Gains  0.00 USD
+
+2030-02-01 open Assets:Reopened
+  owner: "first"
+
+2030-02-01 * "fixed" "account that is closed and opened again" ""
+  Assets:Reopened  1.00 USD
+  Assets:Bank:Checking  -1.00 USD
+
+2030-02-02 * "Payee only" ""
+  Assets:Reopened  -1.00 USD
+  Assets:Bank:Checking  1.00 USD
+
+2030-02-03 close Assets:Reopened
+
+2030-02-04 open Assets:Reopened
+  owner: "second"
 '''
 
 
